@@ -67,7 +67,12 @@ def _replay_worker(args):
         for suffix in ("", ".bak"):
             _rm(persist_path + suffix)
     drv = Driver(ver, fl, Interner(), persistence_file=persist_path, raising_cb=raising)
-    for (a, i) in acts:
+    for (a, i, k) in acts:
+        # k > 0: during this step the application's event callback makes call k (a set_child_value for the reporting node and
+        # child) - armed for this one step
+        drv.react_once = [calls[k - 1]["t"], calls[k - 1]["value"], calls[k - 1].get("ack", 0)] if k else None
+        if k:
+            drv.ops.append(["react_once", drv.react_once])
         if a == "Recv":
             drv.recv(lines[i - 1])
         elif a in ("PumpL", "PumpE"):
@@ -91,6 +96,7 @@ def _replay_worker(args):
             drv.tick()
         elif a == "StopRestart":
             drv.stop_restart()
+        drv.react_once = None
     drv.close()
     if persist_path:
         for suffix in ("", ".bak"):
